@@ -616,7 +616,11 @@ func (m *machine) opMsg(i int, typ string, w wireMsg, raw string) {
 		m.accept(in)
 	}
 	if !in.accepted {
-		m.violate(i, "unstarted-id-output", fmt.Sprintf("%s from the operation of step %d, whose subscribe had to be refused (%s): %s", typ, in.token, in.reject, raw), map[string]string{"late": typ, "reason": in.reject})
+		mt := map[string]string{"late": typ, "reason": in.reject}
+		if in.reject == "duplicate-id" {
+			mt["cause"] = m.dupCause(in.id, in.at)
+		}
+		m.violate(i, "unstarted-id-output", fmt.Sprintf("%s from the operation of step %d, whose subscribe had to be refused (%s): %s", typ, in.token, in.reject, raw), mt)
 		return
 	}
 	if typ == "next" {
@@ -736,6 +740,29 @@ func (m *machine) attribute(st *idState, typ string, w wireMsg, at int) *instanc
 	return st.last
 }
 
+// dupCause classifies a duplicate id that the server let through: "stale-goroutine-released-id"
+// when an earlier instance of the id that the client had given up was still running while a newer
+// instance was started, and ended before the duplicate arrived — the engine's goroutines release
+// ids by name when they end, so the old one releases the registration of the new one.
+func (m *machine) dupCause(id string, at int) string {
+	st := m.ids[id]
+	if st == nil {
+		return "other"
+	}
+	for k, a := range st.all {
+		t, ok := m.res.ops[a.token]
+		if !ok || !a.clientDone || !t.Put {
+			continue
+		}
+		for _, b := range st.all[k+1:] {
+			if b.at < t.PutAt && t.PutAt <= at {
+				return "stale-goroutine-released-id"
+			}
+		}
+	}
+	return "other"
+}
+
 func (m *machine) refusalReason(id string) string {
 	for _, in := range m.inst {
 		if in.id == id && !in.accepted {
@@ -827,8 +854,11 @@ func (m *machine) finish() {
 			if in != nil {
 				reason = in.reject
 			}
-			m.violate(len(res.trace), "op-started-illegally", fmt.Sprintf("the executor of step %d (id %s) ran although the protocol refuses that subscribe (%s)", tok, t.ID, reason),
-				map[string]string{"reason": reason})
+			mt := map[string]string{"reason": reason}
+			if reason == "duplicate-id" && in != nil {
+				mt["cause"] = m.dupCause(in.id, in.at)
+			}
+			m.violate(len(res.trace), "op-started-illegally", fmt.Sprintf("the executor of step %d (id %s) ran although the protocol refuses that subscribe (%s)", tok, t.ID, reason), mt)
 		}
 	}
 	if !res.settled {
